@@ -62,6 +62,30 @@ CHECKS = {
         "note": "Geometry equality only where stored explicitly (bounds / nodes). A CF 1-D grid without bounds cropped to a one-cell-wide window has no derivable geometry; only detection is asserted there.",
         "design": "5/C09",
     },
+    "C10": {
+        "technique": "property-based testing: the same abstract mesh encoded twice with independently drawn encodings, every normalised table compared with a reference mesh model; supplied tables carry a random edge numbering that no derivation reproduces",
+        "text": "Abstract meshes (3-8 node faces incl. 5- and 7-gons, interior and boundary edges, shuffled numbering, random winding) are encoded twice over the full product of index base, fill representation, integer width, transposition, supplied-table subset, declared/implied dimensions, coordinates as variables or xarray coordinates, padding column and raw/decoded/netCDF. face_node, counts, dimension names and polygons must equal the model for both; supplied edge_node / face_edge / edge_face / face_face must come back exactly as supplied; derived tables must satisfy the defining relations (edges = distinct consecutive node pairs, face's c-th edge joins nodes c and c+1, edge lists exactly its faces, adjacency symmetric = shares an edge). String start_index '0'/'1' must warn, anything else must be refused.",
+        "note": "face_edge / edge_face supplied only together with edge_node; derived edge tables asserted only when an edge dimension exists.",
+        "design": "5/C10",
+    },
+    "C11": {
+        "technique": "property-based testing: table-driven restatement of the detection rules as oracle; generated registration orders in a fresh registry; model-based operation sequences (histories) over live datasets",
+        "text": "Datasets of every convention and 13 kinds of near-miss are detected and compared with an independent restatement of the documented rules (also repeatability, deep copies, activity on another registry); 0-4 synthetic conventions with drawn specificities (ties with each other and the built-ins, duplicates) are registered one at a time in a fresh registry with detection asked after every registration; operation sequences of up to 30 steps from {access, construct+bind, bind again, shallow/deep copy, detect} over up to 6 live datasets are run against a model, with the invariant after every step that each bound dataset still returns the identical convention object, unbound copies stay unbound, and a second bind raises.",
+        "note": "Generic ArakawaC never auto-detects (documented). Built-ins do not tie with each other on generated datasets.",
+        "design": "5/C11",
+    },
+    "C12": {
+        "technique": "property-based testing: per-element comparison with a physical-depth reference model computed from the spec",
+        "text": "Datasets of every convention with 1-2 depth coordinates on different dimensions (positive up/down, stored in either order), a generated static sea floor giving columns 0..all wet layers per (depth coordinate, grid kind), 2-4 float variables with the depth dimension in any position on any grid kind with optional time and nuisance dimensions, through operations.depth.ocean_floor and dataset.ems.ocean_floor(). Every element of every reduced variable must equal the spec's value at the wet level of greatest physical depth (NaN for all-dry columns); depth dimension and coordinates must be gone; other variables, time, geometry variables and polygons must be unchanged.",
+        "note": "Static-floor assumption as documented by ocean_floor; the order of the remaining dimensions is not asserted; accessor route only with a time coordinate.",
+        "design": "5/C12",
+    },
+    "C13": {
+        "technique": "property-based testing: invariants over physical depth (multiset preserved, requested sign and order, bounds and data follow), idempotence, input immutability via deep snapshot",
+        "text": "Depth coordinates with/without positive attribute, with/without bounds, dimension or auxiliary coordinate, coordinate or plain variable, in datasets of every convention with float/int variables whose depth dimension sits anywhere; all 9 option combinations; one call, repeated calls, and the two options in two separate calls in either order; function and accessor. After the call the attribute equals the request, the physical depths are the same multiset in the requested order, each bounds row is the transformed row of the same level and brackets it, every data value is still attached to its physical depth, unset options change nothing, a further application is identical, and the input dataset is identical to a deep snapshot taken before.",
+        "note": "Missing positive attribute: the documented guess (majority of values > 0 => down) is the reference, and the documented warning is required.",
+        "design": "5/C13",
+    },
 }
 
 NOT_BUILT_REASON = "check not built yet in this session (work in progress; planned in DESIGN.md section 5)"
